@@ -187,13 +187,81 @@ fn show(a: &Answer) -> String {
 
 pub struct C04;
 
+/// world with one large table (t0, 1100-2600 rows, small key domain, NULLs) and one small table
+/// (t1); queries: equi-joins in both orders (hash-join build over the large side), filtered
+/// aggregates, DISTINCT, and ORDER BY over all columns with LIMIT.
+fn build_huge(t: &mut Tape) -> C04Case {
+    use vcore::sql::ir::*;
+    let mut world = gen_world(t, &WorldCfg { min_tables: 2, max_tables: 2, max_rows: 10, ..WorldCfg::default() });
+    // column 0 of every generated table is INTEGER
+    let n = t.range(1100, 2600) as usize;
+    let modulus = *t.pick(&[37i64, 101, 7, 1000]);
+    let proto: Vec<Vec<V>> = if world.rows[0].is_empty() { vec![world.tables[0].cols.iter().map(|_| V::Null).collect()] } else { world.rows[0].clone() };
+    let mut rows = Vec::with_capacity(n);
+    for i in 0..n {
+        let mut r = proto[i % proto.len()].clone();
+        r[0] = if i % 53 == 17 { V::Null } else { V::Int((i as i64 * 7919) % modulus) };
+        rows.push(r);
+    }
+    world.rows[0] = rows;
+    // half of these cases: the second table is large too, with (nearly) unique keys on both
+    // sides, so that either side of a hash join has more than one build chunk
+    if t.chance(1, 2) {
+        let n2 = t.range(1100, 2600) as usize;
+        for (i, r) in world.rows[0].iter_mut().enumerate() {
+            r[0] = if i % 53 == 17 { V::Null } else { V::Int((i as i64 * 7919) % 2609) };
+        }
+        let proto1: Vec<Vec<V>> = if world.rows[1].is_empty() { vec![world.tables[1].cols.iter().map(|_| V::Null).collect()] } else { world.rows[1].clone() };
+        world.rows[1] = (0..n2)
+            .map(|i| {
+                let mut r = proto1[i % proto1.len()].clone();
+                r[0] = if i % 41 == 5 { V::Null } else { V::Int(i as i64) };
+                r
+            })
+            .collect();
+    }
+    let (a, b) = (world.tables[0].clone(), world.tables[1].clone());
+    let (ak, bk) = (a.cols[0].name.clone(), b.cols[0].name.clone());
+    let tab = |td: &TableDef| FromItem::Table { name: td.name.clone(), alias: None };
+    let join = |l: &TableDef, r: &TableDef, kind: JoinKind| FromItem::Join { l: Box::new(tab(l)), kind, r: Box::new(tab(r)), on: Some(bin(col(&ak), BinOp::Eq, col(&bk))) };
+    let all_cols = |tds: &[&TableDef]| -> Vec<(Expr, Option<String>)> { tds.iter().flat_map(|td| td.cols.iter().map(|c| col(&c.name))).enumerate().map(|(i, e)| (e, Some(format!("c{}", i)))).collect() };
+    let lim = t.range(1, 60) as u64;
+    let k = t.range(0, modulus.min(40));
+    let mut queries = Vec::new();
+    for _ in 0..t.range(1, 3) {
+        let q = match t.below(6) {
+            0 => Query::of(Select { items: all_cols(&[&a, &b]), from: vec![join(&a, &b, JoinKind::Inner)], ..Default::default() }),
+            1 => Query::of(Select { items: all_cols(&[&b, &a]), from: vec![join(&b, &a, JoinKind::Inner)], ..Default::default() }),
+            2 => Query::of(Select { items: all_cols(&[&b, &a]), from: vec![join(&b, &a, JoinKind::Left)], where_: Some(bin(col(&bk), BinOp::Ge, int(k))), ..Default::default() }),
+            3 => Query::of(Select {
+                items: vec![(Expr::Agg { f: AggFn::Count, distinct: false, arg: None }, Some("c0".into())), (Expr::Agg { f: AggFn::Sum, distinct: false, arg: Some(Box::new(col(&ak))) }, Some("c1".into())), (col(&ak), Some("c2".into()))],
+                from: vec![tab(&a)],
+                where_: Some(bin(col(&ak), BinOp::Ne, int(k))),
+                group_by: vec![col(&ak)],
+                ..Default::default()
+            }),
+            4 => Query::of(Select { distinct: true, items: vec![(col(&ak), Some("c0".into()))], from: vec![tab(&a)], where_: Some(bin(col(&ak), BinOp::Lt, int(k + 5))), ..Default::default() }),
+            _ => {
+                let items = all_cols(&[&a]);
+                let nitems = items.len();
+                let mut q = Query::of(Select { items, from: vec![tab(&a)], where_: Some(bin(col(&ak), BinOp::Ge, int(k))), ..Default::default() });
+                q.order_by = (1..=nitems).map(|p| (OrderKey::Pos(p), p % 2 == 0)).collect();
+                q.limit = Some(lim);
+                q
+            }
+        };
+        queries.push(q);
+    }
+    C04Case { world, queries, feats: vec!["huge_table".into()], raw: None }
+}
+
 impl Check for C04 {
     type Case = C04Case;
     fn id(&self) -> &'static str {
         "C04"
     }
     fn rule(&self) -> String {
-        "worlds of 1-3 tables with up to 8 rows (2/3) or up to 60 rows without subqueries (1/3), NULLs and duplicates; 1-3 queries per world from the typed grammar (INNER/LEFT/CROSS joins incl. hash-join shapes, WHERE with AND/OR/IN/BETWEEN/LIKE/CASE, subqueries, DISTINCT, aggregates, GROUP BY/HAVING, set operations, ORDER BY over all output columns with LIMIT/OFFSET). \
+        "worlds of 1-3 tables with up to 8 rows or up to 60 rows without subqueries, and one case in ten with tables of 1100-2600 rows and fixed query shapes (equi-joins in both orders whose hash build exceeds one 1000-row chunk, grouped aggregates, DISTINCT, ORDER BY + LIMIT), NULLs and duplicates; 1-3 queries per world from the typed grammar (INNER/LEFT/CROSS joins incl. hash-join shapes, WHERE with AND/OR/IN/BETWEEN/LIKE/CASE, subqueries, DISTINCT, aggregates, GROUP BY/HAVING, set operations, ORDER BY over all output columns with LIMIT/OFFSET). \
          Each world+queries is sent to three long-lived child processes of this binary that differ only in PARALLEL_THRESHOLD and RAYON_NUM_THREADS: (max, 1) = never parallel, (0, 4) and (0, 2) = every scan/filter/sort/aggregate/join takes its parallel branch at every size. Every query is executed twice in each process. \
          Oracle: the two executions in one process agree (repeatability) and every always-parallel process agrees with the never-parallel one: equal multisets, equal sequences when ORDER BY covers all output columns; errors must be errors everywhere. \
          Non-trivial = the never-parallel answer has at least 2 rows or comes from an aggregate over at least 2 input rows. Distinct = hash of the case."
@@ -208,8 +276,8 @@ impl Check for C04 {
     }
     fn cases(&self, tier: Tier) -> u64 {
         match tier {
-            Tier::Quick => 12_000,
-            Tier::Thorough => 150_000,
+            Tier::Quick => 5_000,
+            Tier::Thorough => 60_000,
         }
     }
     fn tape_len(&self, _t: Tier) -> usize {
@@ -219,9 +287,16 @@ impl Check for C04 {
         vec![("case_compared", 0.98)]
     }
     fn max_shrink_iters(&self) -> u32 {
-        400
+        // cases with 2600-row tables are expensive to re-run
+        60
     }
     fn build(&self, t: &mut Tape, g: &GenCfg) -> C04Case {
+        // Some parallel operators only split their input above a built-in minimum (the hash-join
+        // build uses chunks of at least 1000 rows): one case in ten has a table of 1100-2600 rows
+        // and fixed query shapes that stay cheap at that size.
+        if t.chance(1, 10) {
+            return build_huge(t);
+        }
         let big = t.chance(1, 3);
         let world = gen_world(t, &WorldCfg { max_rows: if big { 60 } else { 8 }, max_tables: if big { 2 } else { 3 }, ..WorldCfg::default() });
         // stay out of the regions of recorded defects (trigger names as in C01) in 80% of the workers
